@@ -488,7 +488,11 @@ def rule_loop(ctx):
                             return classifier
                         return Sym(f"<{f_}>")
                     env = _ctor_defaults(ctx)
-                    env.update({cand_name: cand_env(candidate), "self": Sym("component"), "self._is_fatal": (Sym("classifier") if classifier is not None else None),
+                    def classify_(v_, _ans=classifier):
+                        asked.append(v_)
+                        return _ans
+                    env.update({cand_name: cand_env(candidate), "self": Sym("component"),
+                                "self._is_fatal": (Sym("classifier", methods={"__call__": classify_}) if classifier is not None else None),
                                 hce.params()[0]: Sym("failure", value=err_value), "transport_check": Sym("transport_check"),
                                 "ApplicationError": Sym("ApplicationError"), "OSError": Sym("OSError")})
                     t = Tiny(env, default_call=default)
